@@ -42,7 +42,10 @@ NUMS = ["1", "2", "3", "10", "1.5", "0.5", "2.25",
         "-1", "-0.5", "9000000000",
         # fractions whose product with a large unit lies within a few thousandths of a byte of a whole number WITHOUT being
         # one (1.7509t = 1925134909072.9984 bytes): a rounding tolerance must not take them for whole
-        "1.7509", "10.058", "8.308", "12.067", "64.003761", "14.0008103"]
+        "1.7509", "10.058", "8.308", "12.067", "64.003761", "14.0008103",
+        # ... and fractions of a byte smaller than the spacing of floating-point numbers at that size (9.03107t is
+        # 9929766476259.00032 bytes, 9.009411t is ...912.999936), and a whole number written with 19 decimals
+        "9.03107", "9.009411", "2.0100000000000000000"]
 OPS = ["=", "!=", ">", ">=", "<", "<=", "eq"]
 
 DOC_TABLE = [
